@@ -88,6 +88,13 @@ def broker_scenarios(ctx, n):
                 acked_prefix[key] = True
             recs.append(dict(id=i + 1, topic=t, part=part, epoch=3, ack=ack))
         out.append(dict(run=1000 + k, name="broker-%d" % k, topics=cfg_topics, recs=recs))
+    # back pressure: the pipeline is slow to take the first record while the broker keeps handing out small fetches; whatever the
+    # poll loop does meanwhile, every record handed out must enter the pipeline and nothing may be committed past one that did not
+    for j in range(2):
+        nrec = rng.randint(12, 20)
+        recs = [dict(id=i + 1, topic="va", part=0, epoch=3, ack=True) for i in range(nrec)]
+        out.append(dict(run=1900 + j, name="broker-back-pressure-%d" % j, topics=["va"], recs=recs, per_fetch=1, stall_ms=rng.choice([700, 900]),
+                        max_consumers=rng.choice([1, 2])))
     return out
 
 
